@@ -34,7 +34,7 @@ var pruneImpls = []string{"LocalStore.Prune", "S3Store.Prune", "SFTPStore.Prune"
 
 func isRemoval(name string) bool {
 	switch name {
-	case "os.Remove", "(*github.com/pkg/sftp.Client).Remove", "(*github.com/minio/minio-go/v6.Client).RemoveObject", "(*cloud.google.com/go/storage.ObjectHandle).Delete":
+	case "os.Remove", "(*github.com/pkg/sftp.Client).Remove", "(*github.com/minio/minio-go/v6.Client).RemoveObject", "(github.com/minio/minio-go/v6.Client).RemoveObject", "(*cloud.google.com/go/storage.ObjectHandle).Delete":
 		return true
 	}
 	return strings.HasSuffix(name, ").RemoveChunk")
@@ -304,7 +304,33 @@ func c16ListingErrors(c *Ctx) {
 			continue
 		}
 		n := 0
+		// the function, its closures, and new helpers the loop may have been moved into
+		var fam []*ssa.Function
+		seenF := map[*ssa.Function]bool{}
 		for _, f := range withClosures(fn) {
+			for _, g := range fnsDeep(f) {
+				for _, g2 := range withClosures(g) {
+					if !seenF[g2] {
+						seenF[g2] = true
+						fam = append(fam, g2)
+					}
+				}
+			}
+		}
+		for _, f := range fam {
+			if top := topOf(f); top != fn && newHelpers[top] {
+				// the helper's failure must fail the operation at every call site
+				for _, cs := range helperSites[top] {
+					site, isCall := cs.(*ssa.Call)
+					if !isCall || f != top {
+						continue
+					}
+					_, bad := errPropagates(c, site.Parent(), func(_ string, call *ssa.Call) bool { return call == site }, errPropOpts{})
+					if len(bad) > 0 {
+						c.bad(fnKey(site.Parent())+":listing-helper", site.Pos(), "the error of the listing helper %s is lost: %s", top.Name(), bad[0])
+					}
+				}
+			}
 			for _, b := range f.Blocks {
 				iff := lastIf(b)
 				if iff == nil {
